@@ -33,10 +33,36 @@ def variants(ver, s, rng, k):
     return out
 
 
+def systematic(ctx, rng):
+    """base assignment x ONE defined optional metric value, against the same vector with every other optional
+    metric spelled out as Not Defined (and shuffled): v2 all 729 bases, v3 / v4 a slice of the bases"""
+    from .. import spaces
+    out = []
+    for ver, step in (("2", 1), ("3", 8 if ctx.tier == "quick" else 2), ("4", 300 if ctx.tier == "quick" else 40)):
+        V = VOCAB[ver]
+        opt = [m for m in V["order"] if m not in V["mandatory"]]
+        off = rng.randrange(step)
+        for i, a in enumerate(spaces.all_base(ver)):
+            if i % step != off:
+                continue
+            pfx = rng.choice(core.PREFIX[ver])
+            body = ["%s:%s" % (k, a[k]) for k in V["mandatory"]]
+            for m in opt:
+                for v in V["legal"][m]:
+                    if v == V["nd"]:
+                        continue
+                    plain = pfx + "/".join(body + ["%s:%s" % (m, v)])
+                    full = body + ["%s:%s" % (m, v)] + ["%s:%s" % (k, V["nd"]) for k in opt if k != m]
+                    rng.shuffle(full)
+                    out.append((ver, [plain, pfx + "/".join(full)]))
+    return out
+
+
 def run(ctx):
     rng = ctx.rng
     items = []
-    groups = []
+    groups = systematic(ctx, rng)
+    ctx.extra["systematic_pairs"] = len(groups)
     for _ in range(ctx.n(5000, 120000)):
         ver = rng.choice("234")
         s = core.rand_vector(ver, rng, p_absent=rng.choice([0.2, 0.5, 0.8]))
